@@ -435,6 +435,20 @@ def translate_smd() -> tuple[str, dict]:
     body = exp.body
     if body and isinstance(body[0], ast.Expr) and isinstance(body[0].value, ast.Constant) and isinstance(body[0].value.value, str):
         body = body[1:]
+    # the regular expression Mesh._parse_smd_bones matches a nodes line with
+    regex = None
+    for n in tree.body:
+        if isinstance(n, ast.ClassDef) and n.name == 'Mesh':
+            for f in n.body:
+                if isinstance(f, ast.FunctionDef) and f.name == '_parse_smd_bones':
+                    for c in ast.walk(f):
+                        if isinstance(c, ast.Call) and ast.unparse(c.func) in ('re.fullmatch', 're.match') and len(c.args) == 2 \
+                                and isinstance(c.args[0], ast.Constant) and isinstance(c.args[0].value, bytes):
+                            if regex is not None or ast.unparse(c.func) != 're.fullmatch':
+                                raise TranslateError('smd.py: _parse_smd_bones: more than one pattern, or not a full match')
+                            regex = c.args[0].value
+    if regex is None:
+        raise TranslateError('smd.py: Mesh._parse_smd_bones: re.fullmatch(<bytes pattern>, line) not found')
     L = _Lines()
     rest = L.block(body, {()})
     dangling = [p for p in rest if p]
@@ -447,9 +461,10 @@ def translate_smd() -> tuple[str, dict]:
         ';\n'.join('  [' + '; '.join(_coq_piece(p) for p in ln) + ']' for ln in lines),
         '].',
         f'Definition smd_unterminated_lines : nat := {len(dangling)}.',
+        f'Definition smd_nodes_regex : list N := {_coq_bytes(regex)}.   (* pattern of Mesh._parse_smd_bones *)',
         '',
     ]
-    side = {'n_lines': len(lines), 'write_sites': L.census, 'unterminated': len(dangling), 'export_digest': ast_digest(exp),
+    side = {'n_lines': len(lines), 'nodes_regex': regex.decode('latin1'), 'write_sites': L.census, 'unterminated': len(dangling), 'export_digest': ast_digest(exp),
             'lines': [' '.join((p[1].decode('latin1') if p[0] == 'Lit' else '<' + p[0] + '>') for p in ln) for ln in lines]}
     return '\n'.join(out), side
 
